@@ -114,7 +114,8 @@ ParseHeap(heap, id, m, pfx, xw) ==
     IF Len(rest) < xw THEN [ok |-> FALSE]
     ELSE IF m2 = 0
     THEN [ok |-> TRUE, leaves |-> {[k |-> p, x |-> SubSeq(rest, 1, xw), v |-> SubSeq(rest, xw + 1, Len(rest)), r |-> c.r]}, forks |-> {}]
-    ELSE IF Len(c.r) # 2 THEN [ok |-> FALSE]
+    \* a fork has its two children first; further references belong to the fork's extra (augmented dictionaries only: ahmn_fork left:^ right:^ extra:Y)
+    ELSE IF Len(c.r) < 2 \/ (xw = 0 /\ Len(c.r) # 2) THEN [ok |-> FALSE]
     ELSE LET a == ParseHeap(heap, c.r[1], m2 - 1, Append(p, 0), xw)
              b == ParseHeap(heap, c.r[2], m2 - 1, Append(p, 1), xw)
          IN IF ~a.ok \/ ~b.ok THEN [ok |-> FALSE]
